@@ -163,6 +163,10 @@ type replayCtx struct {
 	qual    types.Qualifier
 	regions map[string]*regionInfo // by region value
 	tmp     int
+	nF, nI  int
+	slotF   []string // description per float slot
+	slotI   []string
+	unsI    map[int]bool
 }
 
 type regionInfo struct {
@@ -233,7 +237,14 @@ func (rc *replayCtx) walkProbes(t *Term, ty *Ty, cons *[]*Term, depth int) bool 
 			h0 = x.sym.Const(hn+"@0", hs)
 		}
 		for k := 0; k < rc.bound; k++ {
-			rc.probe(Select(Select(h0, slReg(t)), IntLit(int64(k))))
+			el := Select(Select(h0, slReg(t)), IntLit(int64(k)))
+			rc.probe(el)
+			if ty.Elem.K == TInt && ty.Elem.Unsigned {
+				*cons = append(*cons, Ge(el, IntLit(0)))
+				if ty.Elem.Bits == 8 {
+					*cons = append(*cons, Le(el, IntLit(255)))
+				}
+			}
 		}
 		return true
 	}
@@ -312,10 +323,16 @@ func (rc *replayCtx) goValue(t *Term, ty *Ty) (string, bool) {
 		if !ok {
 			return "", false
 		}
-		if ty.Go != nil {
-			return fmt.Sprintf("%s(%d)", rc.goType(ty), n), true
+		k := rc.nI
+		rc.nI++
+		rc.slotI = append(rc.slotI, t.String())
+		if ty.Unsigned {
+			rc.unsI[k] = true
 		}
-		return fmt.Sprint(n), true
+		if ty.Go != nil {
+			return fmt.Sprintf("%s(gowpI(%d, %d))", rc.goType(ty), k, n), true
+		}
+		return fmt.Sprintf("int(gowpI(%d, %d))", k, n), true
 	case TBV32:
 		v := rc.value(t)
 		if v == nil || !strings.HasPrefix(v.atom, "#x") {
@@ -328,7 +345,10 @@ func (rc *replayCtx) goValue(t *Term, ty *Ty) (string, bool) {
 			rc.imports["math"] = true
 		}
 		if ok {
-			return "float64(" + s + ")", true
+			k := rc.nF
+			rc.nF++
+			rc.slotF = append(rc.slotF, t.String())
+			return fmt.Sprintf("gowpF(%d, %s)", k, s), true
 		}
 		return "", false
 	case TBool:
@@ -477,7 +497,7 @@ func replayWithBound(e *Engine, o *Obligation, dir string, bound int) *ReplayRes
 	sig := x.fi.Obj.Type().(*types.Signature)
 	pkg := x.fi.Pkg.Types
 	rc := &replayCtx{x: x, o: o, byTerm: map[string]*probe{}, bound: bound, pkgName: pkg.Name(), imports: map[string]bool{"testing": true},
-		helpers: map[string]string{}, regions: map[string]*regionInfo{}}
+		helpers: map[string]string{}, regions: map[string]*regionInfo{}, unsI: map[int]bool{}}
 	rc.qual = func(p *types.Package) string {
 		if p == pkg {
 			return ""
@@ -603,8 +623,8 @@ func replayWithBound(e *Engine, o *Obligation, dir string, bound int) *ReplayRes
 		if !ok {
 			return &ReplayResult{Log: "replay not generated: could not build a Go value for parameter " + p.name + " from the model"}
 		}
-		decls = append(decls, fmt.Sprintf("\t%s := %s\n", p.name, gv))
-		input = append(input, p.name+" = "+gv)
+		decls = append(decls, fmt.Sprintf("\t%s := %s\n\t_ = %s\n", p.name, gv, p.name))
+		input = append(input, p.name)
 	}
 	regs, _ := rc.regionDecls()
 	body.WriteString(regs)
@@ -617,14 +637,24 @@ func replayWithBound(e *Engine, o *Obligation, dir string, bound int) *ReplayRes
 			continue
 		}
 		fmt.Fprintf(&body, "\tdefer func(v %s) { %s = v }(%s)\n\t%s = %s\n", rc.goType(g.ty), g.obj.Name(), g.obj.Name(), g.obj.Name(), gv)
-		input = append(input, g.obj.Name()+" = "+gv)
+		input = append(input, g.obj.Name())
+	}
+	// describe the input
+	var fmts, vals []string
+	for _, n := range input {
+		fmts = append(fmts, n+" = %+v")
+		vals = append(vals, "gowpShow("+n+")")
+	}
+	fmt.Fprintf(&body, "\tdesc = fmt.Sprintf(%q, %s)\n", strings.Join(fmts, "; "), strings.Join(vals, ", "))
+	if len(vals) == 0 {
+		body.Reset()
+		body.WriteString(regs)
+		body.WriteString("\tdesc = \"(no inputs)\"\n")
 	}
 	gc := &goCompiler{rc: rc, x: x, sig: sig, pkg: pkg}
-	// snapshots for old()
 	for _, p := range params {
 		body.WriteString(gc.snapshot(p.name, p.val.Ty))
 	}
-	// call
 	var args []string
 	for i := 0; i < sig.Params().Len(); i++ {
 		n := sig.Params().At(i).Name()
@@ -648,14 +678,6 @@ func replayWithBound(e *Engine, o *Obligation, dir string, bound int) *ReplayRes
 	for i, rn := range rnames {
 		fmt.Fprintf(&body, "\tvar %s %s\n\t_ = %s\n", rn, types.TypeString(sig.Results().At(i).Type(), rc.qual), rn)
 	}
-	body.WriteString("\tpanicked := func() (p interface{}) {\n\t\tdefer func() { p = recover() }()\n\t\t")
-	if len(rnames) > 0 {
-		body.WriteString(strings.Join(rnames, ", ") + " = ")
-	}
-	body.WriteString(callee + "(" + strings.Join(args, ", ") + ")\n\t\treturn nil\n\t}()\n")
-	body.WriteString("\tt.Logf(\"input: %s\", " + strconv.Quote(strings.Join(input, "; ")) + ")\n")
-	body.WriteString("\tif panicked != nil {\n\t\tt.Fatalf(\"GOWP-REPLAY-FAIL: the real function panicked: %v\", panicked)\n\t}\n")
-	// precondition and postconditions
 	gc.results = rnames
 	fr := &frame{sig: sig}
 	for i := 0; i < sig.Results().Len(); i++ {
@@ -667,21 +689,25 @@ func replayWithBound(e *Engine, o *Obligation, dir string, bound int) *ReplayRes
 	}
 	gc.resNames = resultNames(x.fc, fr)
 	gc.lets = x.fc.Lets
-	var checks strings.Builder
-	okAll := true
+	// preconditions (on the entry values, before the call)
 	for _, r := range x.fc.Requires {
-		code, k, err := gc.compileTop(r.E, true)
+		code, k, err := gc.compileTop(r.E, false)
 		if err != nil || k != kBool {
-			continue // cannot evaluate this precondition concretely: skip it
+			continue // cannot evaluate this precondition concretely: not checked
 		}
-		fmt.Fprintf(&checks, "\tif !(%s) {\n\t\tt.Skipf(\"GOWP-REPLAY-SKIP: model input does not satisfy the precondition concretely: %%s\", %s)\n\t}\n", code, strconv.Quote(r.Src))
+		fmt.Fprintf(&body, "\tif !(%s) {\n\t\treturn \"\", desc, true\n\t}\n", code)
 	}
+	body.WriteString("\tpanicked := func() (p interface{}) {\n\t\tdefer func() { p = recover() }()\n\t\t")
+	if len(rnames) > 0 {
+		body.WriteString(strings.Join(rnames, ", ") + " = ")
+	}
+	body.WriteString(callee + "(" + strings.Join(args, ", ") + ")\n\t\treturn nil\n\t}()\n")
+	body.WriteString("\tif panicked != nil {\n\t\treturn fmt.Sprintf(\"the real function panicked: %v\", panicked), desc, false\n\t}\n")
 	nchecks := 0
 	for i, en := range x.fc.Ensures {
 		code, k, err := gc.compileTop(en.E, false)
 		if err != nil || k != kBool {
-			okAll = false
-			fmt.Fprintf(&checks, "\t// clause not compiled to Go: %s (%v)\n", en.Src, err)
+			fmt.Fprintf(&body, "\t// clause not compiled to Go: %s (%v)\n", en.Src, err)
 			continue
 		}
 		label := en.Label
@@ -689,30 +715,18 @@ func replayWithBound(e *Engine, o *Obligation, dir string, bound int) *ReplayRes
 			label = fmt.Sprintf("e%d", i+1)
 		}
 		nchecks++
-		fmt.Fprintf(&checks, "\tif !(%s) {\n\t\tt.Errorf(\"GOWP-REPLAY-FAIL: ensures [%s] violated on the real code: %%s\", %s)\n\t}\n", code, label, strconv.Quote(en.Src))
+		fmt.Fprintf(&body, "\tif !(%s) {\n\t\treturn fmt.Sprintf(\"ensures [%s] violated on the real code: %%s\", %s), desc, false\n\t}\n", code, label, strconv.Quote(en.Src))
 	}
-	_ = okAll
-	// preconditions are evaluated on the entry state: emit before the call
-	full := body.String()
-	callIdx := strings.Index(full, "\tpanicked := func()")
-	// split: preconditions must be checked before the call (entry values)
-	var pre strings.Builder
-	var post strings.Builder
-	for _, line := range strings.SplitAfter(checks.String(), "\n") {
-		_ = line
-	}
-	// simple approach: preconditions compiled with old-mode names (snapshots), so they can run after the call
-	post.WriteString(checks.String())
-	_ = pre
-	_ = callIdx
-	// frame check
 	if x.fc.HasAssigns {
-		post.WriteString(gc.frameCheck(params2names(params), x.fc.Assigns))
+		body.WriteString(gc.frameCheck(nil, x.fc.Assigns))
 	}
+	body.WriteString("\treturn \"\", desc, false\n")
+
 	var src strings.Builder
 	fmt.Fprintf(&src, "// Code generated by gowp: replay of obligation %s. DO NOT EDIT.\npackage %s\n\nimport (\n", o.Name, rc.pkgName)
-	rc.imports["reflect"] = true
-	rc.imports["math"] = true
+	for _, im := range []string{"reflect", "math", "fmt", "math/rand", "time"} {
+		rc.imports[im] = true
+	}
 	for _, im := range sortedKeys(rc.imports) {
 		fmt.Fprintf(&src, "\t%q\n", im)
 	}
@@ -721,10 +735,18 @@ func replayWithBound(e *Engine, o *Obligation, dir string, bound int) *ReplayRes
 	for _, h := range sortedKeys(gc.rc.helpers) {
 		src.WriteString(gc.rc.helpers[h] + "\n")
 	}
-	src.WriteString("func TestGowpReplay(t *testing.T) {\n")
-	src.WriteString(full)
-	src.WriteString(post.String())
-	src.WriteString("}\n")
+	src.WriteString("// gowpTry builds the input (model values unless overridden), runs the real\n// function and evaluates the contract. It returns a failure message (or \"\"),\n// a description of the input, and whether the input was skipped because it\n// does not satisfy the precondition concretely.\n")
+	src.WriteString("func gowpTry() (fail string, desc string, skipped bool) {\n")
+	src.WriteString("\tdefer func() {\n\t\tif r := recover(); r != nil {\n\t\t\tfail, skipped = \"\", true // building or checking the input itself panicked\n\t\t}\n\t}()\n")
+	src.WriteString(body.String())
+	src.WriteString("}\n\n")
+	var uns []string
+	for k := range rc.unsI {
+		uns = append(uns, fmt.Sprintf("%d: true", k))
+	}
+	sort.Strings(uns)
+	fmt.Fprintf(&src, "const gowpNF, gowpNI = %d, %d\n\nvar gowpUnsigned = map[int]bool{%s}\n\n", rc.nF, rc.nI, strings.Join(uns, ", "))
+	src.WriteString(replayDriver)
 	testFile := filepath.Join(dir, sanitize(o.Name)+"_replay_test.go")
 	os.WriteFile(testFile, []byte(src.String()), 0o644)
 	// run with overlay
@@ -736,8 +758,8 @@ func replayWithBound(e *Engine, o *Obligation, dir string, bound int) *ReplayRes
 	outp, _ := runCmd(pkgDir, 90*time.Second, []string{"GOFLAGS=-mod=mod", "GOPROXY=off", "GOSUMDB=off", "GOTOOLCHAIN=local"},
 		"go", "test", "-overlay", ovFile, "-vet=off", "-count=1", "-timeout", "60s", "-run", "^TestGowpReplay$", "-v", ".")
 	r := &ReplayResult{TestFile: testFile}
-	r.Log = fmt.Sprintf("replay test %s (%d contract clauses evaluated in Go), overlay %s\ninput: %s\n%s", testFile, nchecks, ovFile, strings.Join(input, "; "), truncate(outp, 3000))
-	if strings.Contains(outp, "GOWP-REPLAY-FAIL") || strings.Contains(outp, "panic:") && strings.Contains(outp, "TestGowpReplay") {
+	r.Log = fmt.Sprintf("replay test %s (%d contract clauses evaluated in Go)\nre-run: cd %s && go test -overlay %s -vet=off -count=1 -run '^TestGowpReplay$' -v .\n%s", testFile, nchecks, pkgDir, ovFile, truncate(outp, 3000))
+	if strings.Contains(outp, "GOWP-REPLAY-FAIL") {
 		r.Failed = true
 	}
 	return r
@@ -746,6 +768,51 @@ func replayWithBound(e *Engine, o *Obligation, dir string, bound int) *ReplayRes
 func params2names(ps interface{}) []string { return nil }
 
 const replayHelpers = `
+var gowpFO = map[int]float64{}
+var gowpIO = map[int]int64{}
+
+func gowpF(k int, v float64) float64 {
+	if o, ok := gowpFO[k]; ok {
+		return o
+	}
+	return v
+}
+
+func gowpI(k int, v int64) int64 {
+	if o, ok := gowpIO[k]; ok {
+		return o
+	}
+	return v
+}
+
+func gowpShow(v interface{}) interface{} {
+	rv := reflect.ValueOf(v)
+	if rv.Kind() == reflect.Ptr && !rv.IsNil() {
+		return fmt.Sprintf("&%+v", rv.Elem().Interface())
+	}
+	return v
+}
+
+// gowpSeqEq: same length and equal elements (nil and empty are equal;
+// float elements are compared up to rounding).
+func gowpSeqEq(a, b interface{}) bool {
+	va, vb := reflect.ValueOf(a), reflect.ValueOf(b)
+	if va.Kind() != reflect.Slice || vb.Kind() != reflect.Slice || va.Len() != vb.Len() {
+		return false
+	}
+	for i := 0; i < va.Len(); i++ {
+		x, y := va.Index(i), vb.Index(i)
+		if x.Kind() == reflect.Float64 && y.Kind() == reflect.Float64 {
+			if !gowpApprox(x.Float(), y.Float()) {
+				return false
+			}
+		} else if !reflect.DeepEqual(x.Interface(), y.Interface()) {
+			return false
+		}
+	}
+	return true
+}
+
 func gowpApprox(a, b float64) bool {
 	if math.IsNaN(a) || math.IsNaN(b) {
 		return math.IsNaN(a) && math.IsNaN(b)
@@ -757,6 +824,56 @@ func gowpApprox(a, b float64) bool {
 	m := math.Max(math.Abs(a), math.Abs(b))
 	return d <= 1e-9*m || d <= 1e-12
 }
+`
 
-func gowpBool2(f func() bool) bool { return f() }
+const replayDriver = `
+func TestGowpReplay(t *testing.T) {
+	fail, desc, skipped := gowpTry()
+	t.Logf("model input: %s", desc)
+	if fail != "" {
+		t.Fatalf("GOWP-REPLAY-FAIL: %s\\n  on input: %s", fail, desc)
+	}
+	if skipped {
+		t.Logf("the model input does not satisfy the precondition when evaluated concretely")
+	}
+	// concretisation search near the model (deterministic, time-boxed)
+	rng := rand.New(rand.NewSource(1))
+	fpool := []float64{0, 0.5, -0.5, 1, -1, 2, -2, 0.1, 0.25, 0.75, 0.9, 1.5, 3, 10, 100, 1e-3, -1e-3}
+	start := time.Now()
+	tried := 0
+	for iter := 0; iter < 20000 && time.Since(start) < 2*time.Second; iter++ {
+		gowpFO = map[int]float64{}
+		gowpIO = map[int]int64{}
+		n := 1 + rng.Intn(3)
+		for j := 0; j < n; j++ {
+			if gowpNF > 0 && (gowpNI == 0 || rng.Intn(2) == 0) {
+				k := rng.Intn(gowpNF)
+				switch rng.Intn(3) {
+				case 0:
+					gowpFO[k] = fpool[rng.Intn(len(fpool))]
+				case 1:
+					gowpFO[k] = (rng.Float64()*2 - 1) * 10
+				default:
+					gowpFO[k] = float64(rng.Intn(21) - 10)
+				}
+			} else if gowpNI > 0 {
+				k := rng.Intn(gowpNI)
+				v := int64(rng.Intn(9) - 2)
+				if gowpUnsigned[k] && v < 0 {
+					v = -v
+				}
+				gowpIO[k] = v
+			}
+		}
+		fail, desc, skipped = gowpTry()
+		if skipped {
+			continue
+		}
+		tried++
+		if fail != "" {
+			t.Fatalf("GOWP-REPLAY-FAIL (input found by the concretisation search near the model, after %d candidates): %s\\n  on input: %s", tried, fail, desc)
+		}
+	}
+	t.Logf("no failing input among the model input and %d candidates satisfying the precondition", tried)
+}
 `
